@@ -382,6 +382,48 @@ func runC05(c *eng.Ctx) {
 		c.Guard("ABS-counters", "tombstone-only-for-live-keys", fn, eng.Entry(fn), del, eng.PassEdges(fn, live), "a tombstone is appended only for a key whose recorded size is valid (live); deleting a deleted key appends nothing")
 	}
 
+	// ---------------------------------------------------------------- (2b'') "no position" looks at every offset byte
+	// the replay treats an entry whose offset IsZero as a deletion; in the 5-byte build a record stored at an exact
+	// multiple of 32GB has four zero low bytes and a non-zero fifth byte
+	if fn := c.NeedFunc("weed/storage/types", "(Offset).IsZero"); fn != nil {
+		want := map[string]bool{}
+		if pk := P.Pkg("weed/storage/types"); pk != nil {
+			for _, tn := range []string{"OffsetLower", "OffsetHigher"} {
+				if o := pk.Types.Scope().Lookup(tn); o != nil {
+					if st, ok := o.Type().Underlying().(*types.Struct); ok {
+						for i := 0; i < st.NumFields(); i++ {
+							want[st.Field(i).Name()] = true
+						}
+					}
+				}
+			}
+		}
+		read := map[string]bool{}
+		for _, in := range eng.Find(fn, func(in ssa.Instruction) bool {
+			switch in.(type) {
+			case *ssa.Field, *ssa.FieldAddr:
+				return true
+			}
+			return false
+		}) {
+			switch x := in.(type) {
+			case *ssa.Field:
+				read[structFieldName(x.X.Type(), x.Field)] = true
+			case *ssa.FieldAddr:
+				read[structFieldName(x.X.Type(), x.Field)] = true
+			}
+		}
+		var missing []string
+		for f := range want {
+			if !read[f] {
+				missing = append(missing, f)
+			}
+		}
+		sort.Strings(missing)
+		c.Ob("ABS-counters", eng.FuncName(fn)+" looks-at-every-offset-byte", len(want) >= 4 && len(missing) == 0, fn.Pos(),
+			fmt.Sprintf("Offset.IsZero tests all %d bytes of the offset in this build; not tested: %v", len(want), missing))
+	}
+
 	// ---------------------------------------------------------------- (2c) the replay reads whole entries
 	// Every replay of an index file goes through idx.WalkIndexFile, which reads the file in batches and moves its file
 	// position by the bytes read: the batch must hold a whole number of entries (in both offset-width builds), and the
